@@ -54,21 +54,113 @@ def run(ctx):
         for f, m in lst:
             ty, mut = m.group(1), m.group(2)
             has_ctx = '_with_context' in f.name
-            if ty is None and has_ctx:
-                if g == 'interface':
-                    pipeline(ctx, prog, f, bool(mut))
+            if ty is None and has_ctx and g == 'node':
                 # Node::eval_with_context[_mut] are the evaluators themselves (C08/C11)
                 continue
-            if not has_ctx:
-                context_free(ctx, prog, f, g, ty)
-            else:
-                typed(ctx, prog, f, g, ty, bool(mut), worlds)
+            entry(ctx, prog, f, g, ty, bool(mut), has_ctx, worlds)
     if 'interface' in groups:
         bot = prog.fn('interface::build_operator_tree')
         if bot is None:
             ctx.unrecognised('pipeline', 'interface::build_operator_tree', 'missing', 'build_operator_tree not found')
         else:
             pipeline(ctx, prog, bot, None)
+
+
+OPAQUE_PREFIX = ('error::',)
+FRESH = ('app', 'context::HashMapContext::new', ())
+
+
+def entry(ctx, prog, f, g, ty, mut, has_ctx, worlds):
+    """One entry point, decided against the root evaluator: for every outcome of tokenize / tokens_to_operator_tree (string forms) and
+    of Node::eval_with_context[_mut] (6 value variants + error), the entry point returns the projection its name promises, having
+    called the root evaluator exactly once with (the parsed tree | self, the given context | a fresh HashMapContext). Every other
+    crate function on the way (other entry points, helpers) is followed, so it does not matter how the wrappers are layered."""
+    inst = short(f.path)
+    rule = 'matrix' if has_ctx else 'context-free'
+    evaluator = 'tree::Node::eval_with_context' + ('_mut' if (mut or not has_ctx) else '')
+    variant = TYPES[ty] if ty else None
+    stages = []
+    if g == 'interface':
+        stages = [('tokenize-fails', ERR(SYM('token_error')), None), ('parse-fails', OK(SYM('tokens')), ERR(SYM('tree_error')))]
+    cases = [(n, tv, trv, None, None) for n, tv, trv in stages] + [(wn, OK(SYM('tokens')), OK(SYM('tree')), wn, wv) for wn, wv in worlds]
+    n_ok = 0
+    for cname, tok_w, tree_w, wname, wval in cases:
+        calls = []
+
+        def hook(it, fn, t, args, tok_w=tok_w, tree_w=tree_w, wval=wval, calls=calls):
+            c = t['callee']
+            if not c.get('local'):
+                return None
+            d = short(c['def'])
+            if d == 'token::tokenize':
+                calls.append((d, tuple(args)))
+                return tok_w
+            if d == 'tree::tokens_to_operator_tree':
+                calls.append((d, tuple(args)))
+                return tree_w if tree_w is not None else ('app', d, tuple(args))
+            if path_endswith(d, 'tree::Node::eval_with_context') or path_endswith(d, 'tree::Node::eval_with_context_mut'):
+                calls.append((d, tuple(args)))
+                return wval if wval is not None else ('app', d, tuple(args))
+            if d.startswith(OPAQUE_PREFIX) or d == 'context::HashMapContext::new' or c['name'] == 'clone':
+                return ('app', d, tuple(args))
+            return None
+        it = Interp(prog, hook=hook, max_depth=5)
+        try:
+            paths = it.paths(f, [SYM('arg1'), SYM('arg2')][:(2 if has_ctx else 1)])
+        except Budget:
+            ctx.unrecognised(rule, inst, 'budget', 'entry point too complex for abstract evaluation', span=f.span)
+            return
+        rets = [p for p in paths if p[0] != ('diverge',)]
+        if len(paths) != 1 or len(rets) != 1:
+            ctx.violation(rule, inst, 'value-dependent:' + cname, 'for case %s the entry point has %d paths (a guard depends on something other than the result\'s type)' % (cname, len(paths)), span=f.span)
+            continue
+        ret = rets[0][0]
+        ev = [c for c in calls if 'Node::eval_with_context' in c[0]]
+        if wname is None:
+            want = tok_w if cname == 'tokenize-fails' else tree_w
+            good = ret == want and not ev
+            wtxt = fmt(want) + ' without evaluating'
+        else:
+            subject = SYM('tree') if g == 'interface' else SYM('arg1')
+            context = SYM('arg2') if has_ctx else FRESH
+            if len(ev) != 1 or not path_endswith(ev[0][0], evaluator) or ev[0][1] != (subject, context):
+                ctx.violation(rule, inst, 'base-call', 'must reach %s exactly once with (%s, %s); found %s' % (evaluator, fmt(subject), fmt(context), [(c[0], [fmt(a) for a in c[1]]) for c in ev]), span=f.span)
+                continue
+            if g == 'interface':
+                tk = [c for c in calls if c[0] == 'token::tokenize']
+                tr = [c for c in calls if c[0] == 'tree::tokens_to_operator_tree']
+                if len(tk) != 1 or tk[0][1] != (SYM('arg1'),) or len(tr) != 1 or tr[0][1] != (SYM('tokens'),):
+                    ctx.violation(rule, inst, 'pipeline', 'the string is tokenized once and the tokens parsed once (found %s)' % [(c[0], [fmt(a) for a in c[1]]) for c in calls], span=f.span)
+                    continue
+            if ty is None:
+                want = wval
+            elif wname == 'Err':
+                want = ERR(SYM('error'))
+            else:
+                payload = wval[4][0][4]
+                if ty == 'number' and wname == 'Float':
+                    want = OK(payload[0])
+                elif ty == 'number' and wname == 'Int':
+                    want = 'int_as_float'
+                elif ty == 'empty' and wname == 'Empty':
+                    want = OK(('tuple', ()))
+                elif wname == variant:
+                    want = OK(payload[0]) if payload else OK(('tuple', ()))
+                else:
+                    want = ERR(('app', 'error::EvalexprError::expected_' + ty, (wval[4][0],)))
+            if want == 'int_as_float':
+                good = (ret[0] == 'adt' and ret[3] == 'Ok' and ret[4][0][0] == 'app' and ret[4][0][1].endswith('int_as_float') and ret[4][0][2] == (SYM('payload_Int'),))
+                wtxt = 'Ok(int_as_float(payload))'
+            else:
+                good = ret == want
+                wtxt = fmt(want)
+        if good:
+            n_ok += 1
+            ctx.ok(rule, '%s[%s]' % (inst, cname), '%s -> %s' % (cname, fmt(ret)), span=f.span)
+        else:
+            ctx.violation(rule, inst, 'projection:' + cname, 'case %s must yield %s, the entry point returns %s' % (cname, wtxt, fmt(ret)), span=f.span)
+    if n_ok == len(cases):
+        ctx.sample(dict(instance=inst, evaluator=evaluator, variant=variant or ('Int|Float' if ty else 'untyped'), context='given' if has_ctx else 'fresh HashMapContext::new()', verdict='ok', span=f.span))
 
 
 def base_name(g, mut):
